@@ -13,8 +13,25 @@ def run_check(prop, tier, seed):
     mod = importlib.import_module(f'harness.props.{prop.lower()}')
     try:
         mod.run(ctx)
-    except Exception:  # infrastructure error: never a VIOLATION
-        traceback.print_exc()
+    except Exception as e:
+        tb = traceback.format_exc()
+        chain, x = [], e
+        while x is not None and len(chain) < 6:     # worker-pool exceptions carry the remote traceback as __cause__
+            chain.append(str(x))
+            x = x.__cause__ or x.__context__
+        text = tb + '\n'.join(chain)
+        src = os.path.join(os.path.realpath(common.REPO), 'src')
+        if src in text or os.path.join(common.REPO, 'src') in text:
+            # an exception raised INSIDE the code under test escaped a case handler: the tie between model and code
+            # no longer checks on some generated input (not pinned down here) -> broken correspondence, reported by
+            # finish() as a violation without a failing input; the traceback goes into the replay file
+            frames = [l.strip() for l in text.split('\n') if src in l or os.path.join(common.REPO, 'src') in l]
+            ctx.obligation('correspondence:uncaught-exception-in-code-under-test', False,
+                           f'{type(e).__name__}: {str(e)[:200]} at {frames[-1] if frames else "?"}')
+            ctx.mismatch('uncaught-exception', {'traceback': text[-3000:]}, f'{type(e).__name__}: {e}'[:300], 'no exception expected')
+            traceback.print_exc()
+            return ctx.finish()
+        traceback.print_exc()       # infrastructure error: never a VIOLATION
         print(f'{prop}: harness error (exit 2)', file=sys.stderr)
         return 2
     return ctx.finish()
